@@ -15,4 +15,5 @@ theorem sk_SendTrailer : Generated.sk_server_stream_serverStream_SendTrailer = E
 theorem sk_SetTrailer : Generated.sk_server_stream_serverStream_SetTrailer = Expected.sk_server_stream_serverStream_SetTrailer := by decide
 theorem sk_resetStream : Generated.sk_server_handler_resetStream = Expected.sk_server_handler_resetStream := by decide
 theorem sk_runStream : Generated.sk_server_handler_runStream = Expected.sk_server_handler_runStream := by decide
+theorem sk_server_handler_processUnaryRpc : Generated.sk_server_handler_processUnaryRpc = Expected.sk_server_handler_processUnaryRpc := by decide
 end Goat.Tie.C06
